@@ -9,8 +9,10 @@
   (endpoints of the heap nodes, then `_idle_endpoints`).
 
   Quantification: every configuration, every operation list satisfying `wf` (operations in an order
-  the implementation admits — `Open()` first, the initial list loaded once and equal, as a set, to
-  the server set at some moment since `Open()` — and every recorded random choice a legal one).
+  the implementation admits — `Open()` first, any number of further `Open()` calls anywhere afterwards
+  (the balancer's own open sequence: a call on a balancer that is opening or open returns the same open
+  result), the initial list loaded once and equal, as a set, to the server set at some moment since the
+  first `Open()` — and every recorded random choice a legal one).
   Joins, duplicate joins, leaves of unknown/idle/active/draining members, re-joins, traffic, channel
   state changes, slow and failing opens and jitter rounds are all operations.
 -/
@@ -125,6 +127,53 @@ theorem C05_unknown_leave_noop (cfg : Cfg) (lb : St) (hf : Full cfg lb.sub) (hi 
   · simp only [hrm]
     exact ⟨trivial, trivial, trivial, trivial, trivial, trivial⟩
 
+/-- **`Open()` again: the hypotheses admit it.**  The protocol half of `wf` accepts a further `Open()` at any
+    position after the first operation (which is the first `Open()`): while the initial list is loading,
+    between callbacks and traffic, after the open has completed. -/
+theorem C05_open_again_admitted (cfg : Cfg) (pre post : List Op) (hne : pre ≠ [])
+    (h : protoOk { ref := cfg.initial } (pre ++ post) = true) :
+    protoOk { ref := cfg.initial } (pre ++ .opn :: post) = true := by
+  have key : ∀ (pre : List Op) (p : Proto), p.phase ≠ 0 → protoOk p (pre ++ post) = true →
+      protoOk p (pre ++ .opn :: post) = true := by
+    intro pre
+    induction pre with
+    | nil =>
+      intro p hp h
+      simp only [List.nil_append, protoOk, protoStep, if_neg hp]
+      exact h
+    | cons op pre ih =>
+      intro p _ h
+      simp only [List.cons_append, protoOk] at h ⊢
+      cases hps : protoStep p op with
+      | none => rw [hps] at h; cases h
+      | some p' => rw [hps] at h; exact ih p' (protoStep_phase hps) h
+  cases pre with
+  | nil => exact absurd rfl hne
+  | cons op pre =>
+    simp only [List.cons_append, protoOk] at h ⊢
+    cases hps : protoStep { ref := cfg.initial } op with
+    | none => rw [hps] at h; cases h
+    | some p' => rw [hps] at h; exact key pre p' (protoStep_phase hps) h
+
+/-- **`Open()` again changes nothing.**  After any run satisfying `wf`, one more `Open()` (with the hub
+    run dry afterwards) re-runs nothing of `_OpenImpl`: the init gate, the waiting callbacks and `_servers`
+    are what they were, the eligible endpoints are the same, still pairwise distinct, and the server set
+    is untouched.  (With the guard on a finished greenlet instead of the open result, `_servers` is reset
+    and every member added a second time.) -/
+theorem C05_open_again_noop (cfg : Cfg) (ops : List Op) (hwf : wf cfg ops = true) :
+    (stepSt cfg (runSt cfg (init cfg) ops) .opn).1.initDone = (runSt cfg (init cfg) ops).initDone ∧
+    (stepSt cfg (runSt cfg (init cfg) ops) .opn).1.blocked = (runSt cfg (init cfg) ops).blocked ∧
+    (stepSt cfg (runSt cfg (init cfg) ops) .opn).1.sub.hs.servers = (runSt cfg (init cfg) ops).sub.hs.servers ∧
+    (∀ x, x ∈ E (stepSt cfg (runSt cfg (init cfg) ops) .opn).1.sub ↔ x ∈ E (runSt cfg (init cfg) ops).sub) ∧
+    (E (stepSt cfg (runSt cfg (init cfg) ops) .opn).1.sub).Nodup ∧
+    refOf cfg (ops ++ [.opn]) = refOf cfg ops := by
+  obtain ⟨p', h, _⟩ := run_RInv cfg ops _ _ (RInv.init cfg) (wf_proto hwf)
+  obtain ⟨f, eff, _⟩ := stepSt_spec cfg (runSt cfg (init cfg) ops) .opn h.full h.pre (by intro l e hc; cases hc)
+  obtain ⟨e1, e2, e3⟩ := eff
+  refine ⟨e1, e2, e3, ?_, f.inv.nodup, ?_⟩
+  · intro x; rw [f.part, h.full.part, e3]
+  · unfold refOf; rw [List.foldl_append]; rfl
+
 /-- **C05, specification level.**  For every configuration and every operation list satisfying `wf`,
     the history of the model satisfies the executable specification `specC05` — the predicate the
     harness evaluates on the implementation's observations (components `lbheap`, `lbaperture`). -/
@@ -158,9 +207,24 @@ example : refOf ⟨true, 1, 3, 1/2, 2, false, [0, 1, 2]⟩
     [.opn, .join 3 ⟨[], []⟩, .leave 1 ⟨[], []⟩, .loaded [2, 0, 1] ⟨[], []⟩, .chan 0 2, .get ⟨[], [⟨0, 1, 0⟩]⟩,
      .get ⟨[3], [⟨1, 2, 0⟩]⟩, .put 0 0 ⟨[], [⟨1, 1, 0⟩]⟩, .jitter ⟨[0], []⟩, .leave 2 ⟨[], []⟩] = [0, 3] := by decide +kernel
 
-/-- a list that `wf` rejects: the initial list is loaded a second time (Close() and a second Open()
-    of the same balancer are outside the property) -/
+/-- `Open()` again — while the initial list is loading, right after it, between callbacks and traffic,
+    at the end — is within the hypotheses, on both balancers -/
+example : wf ⟨false, 1, 2, 1/2, 2, false, [0, 1]⟩
+    [.opn, .opn, .join 3 ⟨[], []⟩, .opn, .leave 1 ⟨[], []⟩, .loaded [1, 0] ⟨[], []⟩, .opn, .join 3 ⟨[], []⟩,
+     .leave 7 ⟨[], []⟩, .chan 0 2, .opn, .get ⟨[], []⟩, .get ⟨[], []⟩, .opn, .put 0 0 ⟨[], []⟩, .leave 0 ⟨[], []⟩,
+     .opn] = true := by decide +kernel
+
+example : wf ⟨true, 1, 3, 1/2, 2, false, [0, 1, 2]⟩
+    [.opn, .join 3 ⟨[], []⟩, .opn, .leave 1 ⟨[], []⟩, .loaded [2, 0, 1] ⟨[], []⟩, .opn, .chan 0 2, .opn,
+     .get ⟨[], [⟨0, 1, 0⟩]⟩, .get ⟨[3], [⟨1, 2, 0⟩]⟩, .opn, .put 0 0 ⟨[], [⟨1, 1, 0⟩]⟩, .jitter ⟨[0], []⟩, .opn,
+     .leave 2 ⟨[], []⟩, .opn] = true := by decide +kernel
+
+/-- a list that `wf` rejects: the initial list is loaded a second time (`_OpenImpl` runs once per balancer;
+    Close() followed by a new open sequence is outside the property) -/
 example : wf ⟨false, 1, 2, 1/2, 2, false, [0, 1]⟩
     [.opn, .loaded [1, 0] ⟨[], []⟩, .loaded [1, 0] ⟨[], []⟩] = false := by decide +kernel
+
+/-- nor does a further `Open()` make up for a missing first one: a callback before any `Open()` is rejected -/
+example : wf ⟨false, 1, 2, 1/2, 2, false, [0, 1]⟩ [.join 3 ⟨[], []⟩, .opn] = false := by decide +kernel
 
 end Scales.LB
